@@ -1215,6 +1215,28 @@ func genConfig(repo string) *leanFile {
 
 func genPlugin(repo string) *leanFile {
 	l := &leanFile{name: "Plugin"}
+	// addresser_linux.go routesByIndex: is a route message without destination attribute and with
+	// destination length 0 (the kernel's rendering of a default route) given the destination ::
+	// before the invariant check on the destination
+	if af := load(repo, "internal/system/addresser_linux.go"); af != nil {
+		if fd := af.fn("addresser.routesByIndex"); fd != nil {
+			handled := false
+			ast.Inspect(fd.Body, func(n ast.Node) bool {
+				if is, ok := n.(*ast.IfStmt); ok {
+					var b strings.Builder
+					printer.Fprint(&b, fset, is.Cond)
+					c := b.String()
+					if strings.Contains(c, "DstLength == 0") && (strings.Contains(c, "len(") || strings.Contains(c, "== nil")) {
+						handled = true
+					}
+				}
+				return true
+			})
+			l.Bool("routeDefaultWithoutDst", handled, "routesByIndex: a message with no RTA_DST and DstLength 0 is given the destination ::")
+		} else {
+			failf("addresser_linux.go: routesByIndex not found")
+		}
+	}
 	fl := load(repo, "internal/plugin/plugin.go")
 	if fl == nil {
 		return l
